@@ -368,6 +368,11 @@ func DiffObs(m, i Obs) []Diff {
 func DiffRes(op Op, m, i Res) []Diff {
 	var out []Diff
 	where := "result of " + op.Short()
+	if i.Err == "NotImplemented" {
+		// the model follows the implementation (the operation did not happen), but a storage
+		// that declines an operation of the interface is still a deviation worth a diff
+		return []Diff{{Class: "result", Where: where + ".err", Model: "implemented", Impl: "NotImplemented"}}
+	}
 	if m.Err != i.Err {
 		return []Diff{{Class: "result", Where: where + ".err", Model: orOK(m.Err), Impl: orOK(i.Err)}}
 	}
